@@ -24,6 +24,8 @@ def VSpec.toValidator (vs : VSpec) : Validator := fun t =>
 structure DSt where
   st : St := St.fresh [] false false
   vs : VSpec := {}
+  /-- the running prompt has returned: further `key` lines are not delivered to it -/
+  done : Bool := false
 
 def encOptStr : Option Text → String
   | none => "N"
@@ -96,14 +98,14 @@ def parseOp : List String → Option Op
   | ["loadone"] => some .loadOne
   | _ => none
 
-def stepLine (d : DSt) (toks : List String) : DSt × String :=
+def stepLine1 (d : DSt) (toks : List String) : DSt × String :=
   let v := d.vs.toValidator
   match toks with
   | "init" :: e :: w :: strs =>
     match decBool e, decBool w, decStrs strs with
     | some e, some w, some strs =>
       let s := St.fresh strs e w
-      ({ d with st := s }, showSt s "-")
+      ({ d with st := s, done := false }, showSt s "-")
     | _, _, _ => (d, "bad-op")
   | ["val", m, nd, pm, a] =>
     match decNat m, decStr nd, decNat pm, decInt a with
@@ -115,22 +117,32 @@ def stepLine (d : DSt) (toks : List String) : DSt × String :=
     ({ d with st := s }, showSt s "-")
   | ["prompt", dflt] =>
     match decStr dflt with
-    | some t => let s := promptStart d.st t; ({ d with st := s }, showSt s "-")
+    | some t => let s := promptStart d.st t; ({ d with st := s, done := false }, showSt s "-")
     | none => (d, "bad-op")
   | ["promptacc", dflt] =>
     match decStr dflt with
     | some t =>
       match promptAcceptDefault v d.st t with
-      | (s, some r) => ({ d with st := s }, showSt s (encOut (.accepted r)))
-      | (s, none) => ({ d with st := s }, showSt s (encOut .rejected))
+      | (s, some r) => ({ d with st := s, done := true }, showSt s (encOut (.accepted r)))
+      | (s, none) => ({ d with st := s, done := true }, showSt s (encOut .rejected))
     | none => (d, "bad-op")
   | "key" :: rest =>
+    if d.done then (d, "after-accept") else
     match parseKey rest with
-    | some k => let (s, o) := keyStep v d.st k; ({ d with st := s }, showSt s (encOut o))
+    | some k =>
+      let (s, o) := keyStep v d.st k
+      let fin := match o with | .accepted _ => true | _ => false
+      ({ d with st := s, done := fin }, showSt s (encOut o))
     | none => (d, "bad-op")
   | _ =>
     match parseOp toks with
     | some op => let (s, o) := step v d.st op; ({ d with st := s }, showSt s (encOut o))
     | none => (d, "bad-op")
+
+/-- `q <op>`: run the op but print only `-` (a state the real code cannot be observed in) -/
+def stepLine (d : DSt) (toks : List String) : DSt × String :=
+  match toks with
+  | "q" :: rest => let (d', r) := stepLine1 d rest; (d', if r == "bad-op" then r else "-")
+  | _ => stepLine1 d toks
 
 def main : IO Unit := runS stepLine {}
